@@ -24,6 +24,7 @@ pub fn params(tier: Tier) -> WsGen {
         max_offers_in_req: 4,
         signalling_w: 2,
         access_list: false,
+        time_w: 1,
     }
 }
 
